@@ -27,6 +27,7 @@ TABLE = {
     "C07b": ([("goawayBc", 200)], {"C07.resolved"}, None),
     "C08": ([("floodBs", 50)], {"C08.panic"}, None),
     "C09": ([("abuseB", 400)], {"C09.legal_not_penalised"}, "GOAWAY"),
+    "C09b": ([("pushRaceBs", 150)], {"C09.legal_not_penalised"}, "GOAWAY"),
     "C14": ([("ctlB", 200)], {"C14.all_acked", "C14.settings_ack", "C14.pong"}, None),
     "C14b": ([("flowBc", 200), ("ctlB", 200)], {"C02.stream_credit"}, None),
     "C15": ([("shutdownBs", 200)], {"C15.graceful_completes"}, None),
